@@ -637,6 +637,8 @@ def long_tokens(ctx, res, binary=None, env=None, sanitizer=False):
     # the xact/entry command adds the drafted transaction to the journal after the parse context is gone
     cases.append(Case('draft-auto-xact-check', '= /Checking/\n  check account =~ /Foo/\n2010/06/24 Sample\n  Expenses:Food  $100\n  Assets:Checking\n',
                       ['xact', 'Sample'] + NOW))
+    cases.append(Case('draft-tag-check', 'tag Project\n    check value =~ /^(a|b)$/\n2016/02/01 * Test\n    Expenses:Hosting   20.00 USD\n        ; Project: foo\n    Assets:Cash\n',
+                      ['xact', 'Test'] + NOW))
     cases.append(Case('draft-auto-xact', '= /Checking/\n  (Budget)  $1\n2010/06/24 Sample\n  Expenses:Food  $100\n  Assets:Checking\n',
                       ['xact', 'Sample'] + NOW))
     # roundto with an enormous number of places: 10^places is computed
